@@ -176,7 +176,7 @@ Definition data_received (c : nat) (data : bytes) (w : world) : world :=
 Definition api_send_update (ok : bool) (b : bytes) (w : world) : world :=
   if ok then with_proto (fun c w => upd_conn c (on_sent bump_upd) (conn_write c (WRaw b) w)) w else w.
 Definition api_send_bin (b : bytes) (w : world) : world :=
-  with_proto (fun c w => conn_write c (WRaw b) w) w.
+  with_proto (fun c w => upd_conn c (on_sent bump_upd) (conn_write c (WRaw b) w)) w.
 
 (** ---- events ---- *)
 Inductive event :=
